@@ -206,6 +206,8 @@ FlagStatus(c) == c = "InDataExchange"
 HasCommStatus(d, c) == d = "rcs380" /\ c \in {"InCommRF", "TgCommRF"}
 RegDomain(c) == IF c = "ReadFIFOLevel" THEN 0..64 ELSE 0..255     \* 64 byte FIFO
 
+Errnos == {5, 19, 32, 110}
+ETIMEDOUT == 110
 CutLens == 0..5
 \* cut below TFI + response code: nothing of the answer is left
 CutHeader(f) == f.k \in {"CutBody", "CutBodyX"} /\ f.v < 2
@@ -220,12 +222,18 @@ LinkFaults(d) ==
              ELSE {F("NoAck", 0), F("BadAck", 0)})
        \* a WELL-FORMED frame (CCID block / information frame / RC-S380 frame with length fields and checksums
        \* recomputed) whose payload is cut to its first min(v, length - 1) bytes; CutBodyX: in an extended frame
+       \* the transport's read raises IOError(errno) at the 1st read after the command (the wait for the ACK: AckErr,
+       \* not on the ACR122 whose CCID exchange has a single read) or at the 2nd (the wait for the response: RspErr);
+       \* errno EIO, ENODEV, EPIPE, ETIMEDOUT
+       \cup {F("RspErr", n) : n \in Errnos}
+       \cup (IF d = "acr122" THEN {} ELSE {F("AckErr", n) : n \in Errnos})
        \cup {F("CutBody", n) : n \in CutLens}
        \cup (IF d \in Pn53xLink THEN {F("CutBodyX", n) : n \in CutLens} ELSE {})
 UdpSendFaults == {F("HostIOW", 0), F("DeviceGone", 0), F("ShortSend", 0)}
 UdpRecvFaults == {F("HostTimeout", 0), F("HostIO", 0), F("RfOff", 0), F("ShortFrame", 1), F("ShortFrame", 2),
                   F("BadChecksum", 0), F("WrongCode", 0), F("Garbled", 1), F("Garbled", 2)}
                  \cup {F("CutBody", n) : n \in CutLens}          \* only a prefix of the datagram arrives
+                 \cup {F("RspErr", n) : n \in {5, 19, 32}}        \* recvfrom raises OSError(errno)
 
 \* RC-S380 communication status: bit i of the mask selects flag CommFlags[i+1]
 CommFlags == <<"PROTOCOL_ERROR", "PARITY_ERROR", "CRC_ERROR", "COLLISION_ERROR", "OVERFLOW_ERROR",
@@ -367,7 +375,13 @@ Allowed(d, k, at, f) ==
     [] f.k = "ErrorFrame" -> {"Transmission", "Protocol", "IOErr"} \cup NoneOk(k)
     [] f.k = "HostTimeout" -> IF c \in RegReads THEN {"Timeout", "IOErr"}   \* a register read: host link
                               ELSE {"Timeout"}                            \* the RF exchange command
-    [] f.k = "NoAck"      -> {"IOErr", "Timeout"}
+    \* the host link is down before the chip even acknowledged the command: a host-link failure whatever the errno --
+    \* a timeout of the ACK wait is NOT the RF timeout the chip reports / the response wait runs into
+    [] f.k \in {"NoAck", "AckErr"} -> {"IOErr"}
+    [] f.k = "RspErr" /\ f.v = ETIMEDOUT ->
+         IF d = "rcs380" THEN {"IOErr", "Timeout"}               \* (this driver never asks its transport for a timeout)
+         ELSE IF c \in RegReads THEN {"Timeout", "IOErr"} ELSE {"Timeout"}
+    [] f.k = "RspErr" -> {"IOErr"}
     [] f.k \in {"HostIO", "HostIOW", "DeviceGone"} -> {"IOErr"}
     [] f.k = "RfOff"      -> {"BrokenLink"}
     [] f.k = "WrongCode" /\ d = "udp" -> {"Timeout"}           \* a datagram for another bit rate is not ours
@@ -403,7 +417,11 @@ OutcomeDocumented == Done => o \in (IF c.k \in OpKinds THEN OpDocumented ELSE Do
 \* the table itself (evaluated on the initial state of every slice): total, non-empty, never permits an internal
 \* outcome; benign faults give data; a broken host link at the RF exchange command never yields data
 \* (except the unverified RC-S380 checksums); chip time-out status 01h is a TimeoutError for an initiator
-HostBroken == {"HostIO", "HostIOW", "DeviceGone", "HostTimeout", "NoAck", "BadAck", "ShortFrame", "WrongCode"}
+HostBroken == {"HostIO", "HostIOW", "DeviceGone", "HostTimeout", "NoAck", "BadAck", "ShortFrame", "WrongCode",
+               "AckErr", "RspErr"}
+\* PN53x host link: a command whose response does not arrive in time is cancelled with an ACK frame
+\* (pn53x.Chipset.command); nothing else in an exchange writes an ACK frame
+CancelAck(d, f) == d \in Pn53xLink /\ (f.k = "HostTimeout" \/ (f.k = "RspErr" /\ f.v = ETIMEDOUT))
 OpCaseOk(cs) ==
   LET a == Allowed(cs.d, cs.k, cs.at, cs.f)
       exp == Expect(cs.d, cs.k)
